@@ -517,6 +517,7 @@ func init() {
 				}
 				c01ByteLevel(c, toks)
 			}))
+			spaces = append(spaces, c01ForkSpace())
 			return spaces
 		},
 	})
